@@ -31,3 +31,9 @@ Definition sl_prefix (s : sl) (n : nat) : sl :=
   | Sub off bs => Sub off (firstn n bs)
   | Ext bs => Ext (firstn n bs)
   end.
+
+(* a SIMD kernel's K-byte load from `bytes.as_ref()`: checked (the loop guard has to make it legal) *)
+Definition load_block (K : nat) : P (list N) := fun c =>
+  match take K (rest c) with Some b => Done b c | None => Fault LoadOOB end.
+(* `bytes.as_ref()` handed to swar::match_tail *)
+Definition rest_bytes : P (list N) := fun c => Done (rest c) c.
